@@ -74,6 +74,10 @@ def make_element(kind, cell, gdim):
         return bu.element("BDM", cell, 1)
     if kind == "RTxDG0":
         return bu.mixed_element([bu.element("RT", cell, 1), bu.element("DG", cell, 0)])
+    if kind == "RTCF1":
+        return bu.element("RTCF", cell, 1)
+    if kind == "RTCE1":
+        return bu.element("RTCE", cell, 1)
     if kind == "bubble":
         return bu.enriched_element([bu.element("Lagrange", cell, 1), bu.element("Bubble", cell, TDIM[cell] + 1)])
     if kind == "real":
